@@ -46,6 +46,9 @@ use flume::{bounded, Sender, TrySendError};
 use if_addrs::{IfAddr, Interface};
 use mio::{event::Source, net::UdpSocket as MioUdpSocket, Interest, Poll, Registry, Token};
 use socket2::Domain;
+#[cfg(feature = "verif-hooks")]
+use crate::verif::PktInfoUdpSocket;
+#[cfg(not(feature = "verif-hooks"))]
 use socket_pktinfo::PktInfoUdpSocket;
 use std::{
     cmp::{self, Reverse},
